@@ -3,6 +3,7 @@ package main
 import (
 	"fmt"
 	"go/ast"
+	"go/constant"
 	"go/token"
 	"go/types"
 	"regexp"
@@ -53,11 +54,15 @@ func ruleC15R1(w *World, r *Report) {
 			sw = s
 		}
 	}
-	if sw == nil {
-		r.undecided(rule, "quoteSingleEscape (shape)", w.pos(fd.Pos()), "not a tagless switch over conditions on r")
-		return
-	}
 	unconditional := map[string]bool{}
+	if sw == nil {
+		// not the tagless switch the first version of the rule reads: the function is followed by interpretation (CONCR)
+		// for every byte value and a few larger runes, each quote character and both kinds of literal — it only compares
+		// its rune with constants, so this is its whole table
+		w.quoteEscapeTable(r, rule, fd)
+		unconditional["quote"], unconditional["backslash"] = true, true // judged inside, per quote character
+		sw = &ast.SwitchStmt{Body: &ast.BlockStmt{}}
+	}
 	for _, c := range sw.Body.List {
 		cc := c.(*ast.CaseClause)
 		if cc.List == nil {
@@ -152,12 +157,15 @@ func ruleC15R1(w *World, r *Report) {
 			}
 		}
 	}
-	if !unconditional["quote"] {
+	if len(sw.Body.List) == 0 {
+		// decided by quoteEscapeTable
+	} else if !unconditional["quote"] {
 		r.bad(rule, "quoteSingleEscape escapes the quote unconditionally", w.pos(fd.Pos()), "no arm `r == quote` that applies to strings, bytes and identifiers alike: the literal could be closed early")
 	} else {
 		r.ok(rule, "quoteSingleEscape escapes the quote unconditionally", w.pos(fd.Pos()), "arm r == quote is not guarded by isString")
 	}
-	if !unconditional["backslash"] {
+	if len(sw.Body.List) == 0 {
+	} else if !unconditional["backslash"] {
 		r.bad(rule, "quoteSingleEscape escapes the backslash unconditionally", w.pos(fd.Pos()), "no unguarded arm for '\\\\': a backslash in the value would start an escape")
 	} else {
 		r.ok(rule, "quoteSingleEscape escapes the backslash unconditionally", w.pos(fd.Pos()), "arm r == '\\\\' is not guarded by isString")
@@ -827,5 +835,100 @@ func ruleC15R6(w *World, r *Report) {
 	}
 	if n == 0 {
 		r.errorf("no return found in consumeQuotedContent")
+	}
+}
+
+
+// quoteEscapeTable: quoteSingleEscape followed by interpretation over its finite table.
+func (w *World) quoteEscapeTable(r *Report, rule string, fd *ast.FuncDecl) {
+	fn := w.fn(w.Tok, "quoteSingleEscape")
+	if fn == nil || len(fn.Params) != 3 {
+		r.undecided(rule, "quoteSingleEscape (table)", w.pos(fd.Pos()), "not a function of (rune, quote rune, isString bool)")
+		return
+	}
+	ri, qi, bi := -1, -1, -1
+	for i, p := range fn.Params {
+		switch {
+		case isBoolType(p.Type()):
+			bi = i
+		case p.Name() == "quote":
+			qi = i
+		default:
+			ri = i
+		}
+	}
+	if ri < 0 || qi < 0 || bi < 0 {
+		r.undecided(rule, "quoteSingleEscape (table)", w.pos(fd.Pos()), "parameters (r, quote, isString) not identified")
+		return
+	}
+	init, _ := w.pkgInit(modRoot + "/token")
+	var runes []rune
+	for c := rune(0); c < 0x300; c++ {
+		runes = append(runes, c)
+	}
+	runes = append(runes, 0x2028, 0xFFFD, 0x10FFFF)
+	type key struct {
+		r rune
+		e string
+	}
+	seen := map[key]bool{}
+	var undec string
+	for _, quote := range []rune{'"', '\'', '`'} {
+		for _, isStr := range []bool{false, true} {
+			for _, c := range runes {
+				ci := w.newConcr()
+				ci.heap = true
+				if init != nil {
+					ci.globals = init.globals
+				}
+				args := make([]cval, 3)
+				args[ri], args[qi] = mkInt(int(c)), mkInt(int(quote))
+				args[bi] = cval{kind: cConst, c: constant.MakeBool(isStr)}
+				out := ci.run(fn, args, 0)
+				e, known := "", false
+				if out.status == "return" && len(out.vals) == 1 {
+					switch v := out.vals[0]; {
+					case v.kind == cConst && v.c.Kind() == constant.String:
+						e, known = constant.StringVal(v.c), true
+					case v.kind == cStr && len(v.parts) == 2 && v.parts[0] == `\` && v.parts[1] == "\x00?":
+						// `\` + string(r): backslash and the rune itself
+						e, known = `\`+string(c), true
+					}
+				}
+				if !known {
+					undec = fmt.Sprintf("quoteSingleEscape(%q, %q, %v) could not be followed: %s %s", c, quote, isStr, out.status, out.why)
+					continue
+				}
+				construct := fmt.Sprintf("quoteSingleEscape(%q) = %q", c, e)
+				if e == "" {
+					if c == quote || c == '\\' {
+						r.bad(rule, fmt.Sprintf("quoteSingleEscape(%q) with quote %q", c, quote), w.pos(fd.Pos()), "no escape is emitted for the active quote character / the backslash: the literal would be closed early or start an escape")
+					}
+					continue
+				}
+				if seen[key{c, e}] {
+					continue
+				}
+				seen[key{c, e}] = true
+				switch {
+				case len(e) == 2 && e[0] == '\\' && rune(e[1]) == c && (c == '"' || c == '\'' || c == '`' || c == '\\' || c == '?'):
+					r.ok(rule, construct, w.pos(fd.Pos()), "backslash + the character itself, which decodes to itself")
+				case len(e) == 2 && e[0] == '\\':
+					dec, ok := specDecode[e[1]]
+					if !ok {
+						r.bad(rule, construct, w.pos(fd.Pos()), fmt.Sprintf("emits %q, which the lexer does not decode as a simple escape", e))
+					} else if dec != c {
+						r.bad(rule, construct, w.pos(fd.Pos()), fmt.Sprintf("emits %q for %q, but the lexer decodes it to %q", e, c, dec))
+					} else {
+						r.ok(rule, construct, w.pos(fd.Pos()), fmt.Sprintf("%q -> %q -> %q", c, e, dec))
+					}
+				default:
+					r.bad(rule, construct, w.pos(fd.Pos()), fmt.Sprintf("emits %q, which is not a backslash followed by one escape letter", e))
+				}
+			}
+		}
+	}
+	if undec != "" {
+		r.undecided(rule, "quoteSingleEscape (table)", w.pos(fd.Pos()), undec)
 	}
 }
